@@ -33,6 +33,22 @@ __CPROVER_requires(IORA_TRUE && a.n <= HM_MAXLEN && b.n <= HM_MAXLEN)
 __CPROVER_assigns()
 CIEQ_POST
 ;
+/* derived contract for the call `ciEquals(name, "Content-Length")` in parseHeaderBlock: when b is exactly the 14 bytes "Content-Length", the result is
+ * the byte-level recognition of the field name (same macro as the field-map model: case-insensitive "content-length") */
+#define B_IS_CL_LIT(b_) ((b_).n == 14 && (b_).p[0] == (char)67 && (b_).p[1] == (char)111 && (b_).p[2] == (char)110 && (b_).p[3] == (char)116 && (b_).p[4] == (char)101 && (b_).p[5] == (char)110 && (b_).p[6] == (char)116 \
+   && (b_).p[7] == (char)45 && (b_).p[8] == (char)76 && (b_).p[9] == (char)101 && (b_).p[10] == (char)110 && (b_).p[11] == (char)103 && (b_).p[12] == (char)116 && (b_).p[13] == (char)104)
+bool ciEquals_cl_contract(iora_sv a, iora_sv b)
+__CPROVER_requires(IORA_TRUE && a.n <= HM_MAXLEN && b.n <= HM_MAXLEN)
+__CPROVER_requires(__CPROVER_is_fresh(a.p, a.n + 1))
+__CPROVER_requires(__CPROVER_is_fresh(b.p, b.n + 1))
+__CPROVER_assigns()
+/* E3 */ __CPROVER_ensures(B_IS_CL_LIT(b) ==> (R == HM_NAME_IS_CL(a)))
+;
+bool ciEquals_cl_use(iora_sv a, iora_sv b)
+__CPROVER_requires(IORA_TRUE && a.n <= HM_MAXLEN && b.n <= HM_MAXLEN)
+__CPROVER_assigns()
+__CPROVER_ensures(B_IS_CL_LIT(b) ==> (R == HM_NAME_IS_CL(a)))
+;
 void h_cieq(void) { iora_sv a, b; bool r = ciEquals(a, b); IORA_CANARY("h_cieq: returns"); if (r) { IORA_CANARY("h_cieq: equal"); } }
 
 /* ================= HttpClient::parseContentLength (RFC 9112 6.3 rule 5, RFC 9110 8.6) ================= */
@@ -124,7 +140,7 @@ void h_te(void)
 
 /* ================= HttpClient::parseHeaderBlock (RFC 9112 4 status line, 5 field lines, 5.2 obs-fold, 6.3 rule 5 duplicate Content-Length) ================= */
 #define PHB_PRE \
-__CPROVER_requires(IORA_TRUE && iora_exc == EXC_NONE && hs.n <= HM_MAXLEN) \
+__CPROVER_requires(IORA_TRUE && iora_exc == EXC_NONE && hs.n <= PHB_MAXLEN) \
 __CPROVER_requires(__CPROVER_is_fresh(hs.p, hs.n + 1)) \
 __CPROVER_requires(__CPROVER_is_fresh(resp, sizeof(Response))) \
 /* call site (frameResponse): `resp = Response{}` immediately before the call - the field map is empty */ \
@@ -166,9 +182,9 @@ PHB_PRE
 void phb_dupcl(iora_sv hs, Response *resp)
 PHB_PRE
 /* B7 */ __CPROVER_ensures((NOEXC & (GS < hs.n) & LINESTART(hs, GS) & CLLINE(hs, GS)) ==> ((HB.seen != 0) & (resp->headers.has_cl != 0)))
-/* B8 */ __CPROVER_ensures((NOEXC & (GS < hs.n) & LINESTART(hs, GS) & CLLINE(hs, GS)) ==> ((HB.s_va <= hs.n) & (HB.s_vn <= hs.n - HB.s_va) & SVEQ_AT(hs, HB.s_va, HB.s_vn, HB.cl_off, resp->headers.cl.second.n)))
+/* B8 */ __CPROVER_ensures((NOEXC & (GS < hs.n) & LINESTART(hs, GS) & CLLINE(hs, GS)) ==> ((HB.s_va <= hs.n) & (HB.s_vn <= hs.n) & (HB.s_va + HB.s_vn <= hs.n) & SVEQ_AT(hs, HB.s_va, HB.s_vn, HB.cl_off, resp->headers.cl.second.n)))
 /* B9 the stored value is a range of the block */
-__CPROVER_ensures((NOEXC & (resp->headers.has_cl != 0)) ==> ((HB.cl_off <= hs.n) & (resp->headers.cl.second.n <= hs.n - HB.cl_off) & ((resp->headers.cl.second.n == 0) | (resp->headers.cl.second.p == hs.p + HB.cl_off))))
+__CPROVER_ensures((NOEXC & (resp->headers.has_cl != 0)) ==> ((HB.cl_off <= hs.n) & (resp->headers.cl.second.n <= hs.n) & (HB.cl_off + resp->headers.cl.second.n <= hs.n) & ((resp->headers.cl.second.n == 0) | (resp->headers.cl.second.p == hs.p + HB.cl_off))))
 ;
 void h_phb(void)
 {
